@@ -395,7 +395,15 @@ func c16HostileDims(r *rand.Rand) map[string]interface{} {
 	n := r.Intn(4)
 	for i := 0; i < n; i++ {
 		key := []string{"k", "x", "", "s", "_", "k"}[r.Intn(6)]
-		switch r.Intn(10) {
+		switch r.Intn(14) {
+		case 10:
+			d[key] = r.Intn(100) // well-formed but of a type the tables' dimension functions do not expect
+		case 11:
+			d[key] = r.Intn(2) == 0
+		case 12:
+			d[key] = time.Unix(int64(r.Intn(1e9)), 0)
+		case 13:
+			d[key] = uint64(r.Intn(100))
 		case 0:
 			d[key] = nil
 		case 1:
@@ -427,12 +435,23 @@ type c16Sink interface {
 	InsertRaw(stream string, ts time.Time, dims bytemap.ByteMap, vals bytemap.ByteMap) error
 }
 
+// c16ValidKey is the key of valid point id. With selective keys (set by the replicated scenario whose tables all
+// have a WHERE) odd ids get a key that only one table accepts.
+var c16SelectiveKeys bool
+
+func c16ValidKey(id int) string {
+	if c16SelectiveKeys && id%2 == 1 {
+		return fmt.Sprintf("zq%05d", id)
+	}
+	return fmt.Sprintf("id%05d", id)
+}
+
 // c16HostileStream sends nPay hostile payloads to db, each followed by 1-2 valid unique-id points
 // (k = id%05d, x = "q", v = 1, one second apart from base). Returns the number of valid ids.
 func c16HostileStream(c *fw.Ctx, db c16Sink, base time.Time, nPay int) (id int, hostileDone int, lastPayload string, ok bool) {
 	r := c.Rand
 	insertValid := func() bool {
-		err := db.Insert("inbound", base.Add(time.Duration(id)*time.Second), map[string]interface{}{"k": fmt.Sprintf("id%05d", id), "x": "q"}, map[string]interface{}{"v": 1.0})
+		err := db.Insert("inbound", base.Add(time.Duration(id)*time.Second), map[string]interface{}{"k": c16ValidKey(id), "x": "q"}, map[string]interface{}{"v": 1.0})
 		if err != nil {
 			c.Violate("c16-valid-insert-rejected", "valid point id%05d was rejected after %d hostile payloads: %v", id, hostileDone, err)
 			return false
@@ -572,15 +591,33 @@ func c16Replicated(c *fw.Ctx) {
 	type tdef struct {
 		name, sql string
 		partBy    []string
+		accepts   func(id int) bool
+	}
+	all := func(int) bool { return true }
+	even := func(id int) bool { return id%2 == 0 }
+	// every other replicated case: every table has a WHERE and half of the valid points are accepted by exactly
+	// one table, so that the leader-side filter (an entry goes to a follower only if some table of it wants it)
+	// alone decides whether the point is replicated
+	c16SelectiveKeys = c.Case%8 == 7
+	defer func() { c16SelectiveKeys = false }()
+	if c16SelectiveKeys {
+		c.Obs("replicated_cases_with_selective_tables", 1)
 	}
 	tables := []tdef{
-		{"t_all", "SELECT SUM(v) AS v FROM inbound GROUP BY k, period(1h)", []string{"k"}},
-		{"t_where", "SELECT SUM(v) AS v FROM inbound WHERE LEN(k) > 2 AND x <> 'zz' AND CONCAT('-', k, x) <> 'a-b' GROUP BY k, period(1h)", []string{"k"}},
-		{"t_star", "SELECT v, AVG(v) AS a, IF(x = 'q', SUM(v)) AS i FROM inbound WHERE SUBSTR(k, 0, 2) = 'id' OR SUBSTR(k, 0, 2) = 'zz' GROUP BY *, period(1h)", nil},
+		{"t_all", "SELECT SUM(v) AS v FROM inbound GROUP BY k, period(1h)", []string{"k"}, all},
+		{"t_where", "SELECT SUM(v) AS v FROM inbound WHERE LEN(k) > 2 AND x <> 'zz' AND CONCAT('-', k, x) <> 'a-b' GROUP BY k, period(1h)", []string{"k"}, all},
+		{"t_star", "SELECT v, AVG(v) AS a, IF(x = 'q', SUM(v)) AS i FROM inbound WHERE SUBSTR(k, 0, 2) = 'id' OR SUBSTR(k, 0, 2) = 'zz' GROUP BY *, period(1h)", nil, all},
 		// a WHERE that hostile points fail quietly (no panic) while every valid point passes it: a result
 		// cached or carried over from a hostile point would keep valid points from being replicated
-		{"t_q", "SELECT SUM(v) AS v FROM inbound WHERE x = 'q' GROUP BY k, period(1h)", []string{"k"}},
-		{"t_notz", "SELECT SUM(v) AS v FROM inbound WHERE n IS NULL AND x <> 'zz' GROUP BY k, period(1h)", []string{"k"}},
+		{"t_q", "SELECT SUM(v) AS v FROM inbound WHERE x = 'q' GROUP BY k, period(1h)", []string{"k"}, all},
+		{"t_notz", "SELECT SUM(v) AS v FROM inbound WHERE n IS NULL AND x <> 'zz' GROUP BY k, period(1h)", []string{"k"}, all},
+	}
+	if c16SelectiveKeys {
+		tables = []tdef{
+			{"t_q", "SELECT SUM(v) AS v FROM inbound WHERE x = 'q' GROUP BY k, period(1h)", []string{"k"}, all},
+			{"t_sub", "SELECT SUM(v) AS v FROM inbound WHERE SUBSTR(k, 0, 2) = 'id' OR SUBSTR(k, 0, 2) = 'zz' GROUP BY k, period(1h)", []string{"k"}, even},
+			{"t_len", "SELECT SUM(v) AS v FROM inbound WHERE LEN(k) > 100 GROUP BY k, period(1h)", []string{"k"}, func(int) bool { return false }},
+		}
 	}
 	var cdefs []cluster.TableDef
 	for _, t := range tables {
@@ -627,6 +664,9 @@ func c16Replicated(c *fw.Ctx) {
 			p := cluster.PartitionFor(dims, t.partBy, N)
 			if key := fmt.Sprintf("%d/%s", p, t.name); !covered[key] {
 				covered[key] = true
+				if t.name == "t_len" {
+					continue // accepts nothing, not even barrier points
+				}
 				f := cl.Followers[p][0]
 				if want[f] == nil {
 					want[f] = map[string]string{}
@@ -680,9 +720,16 @@ func c16Replicated(c *fw.Ctx) {
 				}
 			}
 			for i := 0; i < id; i++ {
-				k := fmt.Sprintf("id%05d", i)
+				k := c16ValidKey(i)
 				dims := map[string]interface{}{"k": k, "x": "q"}
-				mine := cluster.PartitionFor(dims, t.partBy, N) == p
+				mine := cluster.PartitionFor(dims, t.partBy, N) == p && t.accepts(i)
+				if !t.accepts(i) && got[k] != nil {
+					c.Violate("c16-valid-point-misrouted", "follower of partition %d, table %s holds %s, which its WHERE rejects", p, t.name, k)
+					return
+				}
+				if !t.accepts(i) {
+					continue
+				}
 				v := got[k]
 				if mine && (v == nil || v[0] != 1 || v[1] != 1) {
 					c.ViolateData("c16-valid-point-not-replicated", map[string]interface{}{"table": t.name, "id": k, "row": v}, "follower of partition %d, table %s: valid point %s (inserted through the leader after hostile payloads) has row %v, expected _points=1 v=1", p, t.name, k, v)
